@@ -30,6 +30,7 @@ def build(H, tier, seed):
     A.vc_map_filter(H)
     A.vc_constructors(H)
     AL.vc_blade2canon(H)
+    AL.vc_blade2canon_concrete(H)
     AL.vc_bladedict_getitem(H)
 
 
